@@ -258,7 +258,8 @@ func vOptDay(d int, ok bool) string {
 	return vFmtDay(d, "")
 }
 
-var c06Zones = []string{"UTC", "America/New_York", "Asia/Tokyo", "Pacific/Kiritimati", "Pacific/Pago_Pago", "Europe/Sofia"}
+var c06Zones = []string{"UTC", "America/New_York", "Asia/Tokyo", "Pacific/Kiritimati", "Pacific/Pago_Pago", "Europe/Sofia",
+	"America/Havana", "America/Santiago", "Asia/Kolkata", "Australia/Lord_Howe", "America/St_Johns", "Asia/Kathmandu"} // incl. DST changes at midnight and non-hour offsets
 
 const c06Base = 40 // first day of the window (2021-02-10); month boundary: use 56..61 in some cases
 
@@ -275,7 +276,10 @@ func genC06Bound(t *rapid.T, base int, today int, label string) c06Bound {
 
 func genC06(t *rapid.T) c06Case {
 	layout := []string{"", "", "2006-01-02", "02.01.2006"}[rapid.IntRange(0, 3).Draw(t, "layout")]
-	base := []int{c06Base, 56, 362, 1150}[rapid.IntRange(0, 3).Draw(t, "base")] // incl. month, year and leap-day boundaries
+	// windows incl. month, year and leap-day boundaries and daylight-saving changes (2021-03-14 Havana/US, 2021-03-28 EU,
+	// 2021-09-05 Santiago, 2021-11-07 US)
+	// -3 and 1458: 31 December of a leap year next to 1 January
+	base := []int{c06Base, 56, 362, 1150, 70, 84, 245, 308, -3, 1458}[rapid.IntRange(0, 9).Draw(t, "base")]
 	exact := true
 	lo := vLayoutOpts{Plain: true}
 	if rapid.IntRange(0, 4).Draw(t, "varlayout") == 0 {
@@ -392,7 +396,62 @@ func c06EnumCase(ix c06EnumIdx) c06Case {
 	return c
 }
 
+// exhaustive: keyword bounds around daylight-saving changes and year ends
+var c06DSTWindows = []int{70, 84, 245, 308, -3, 1458, 362} // first day of a 6-day window
+var c06DSTZones = []string{"America/New_York", "Europe/Berlin", "America/Havana", "America/Santiago", "Australia/Lord_Howe", "Asia/Kolkata", "UTC"}
+
+type c06DSTIdx struct{ win, today, kw, side, zone, cmd int }
+
+func c06DSTSpace() []c06DSTIdx {
+	var out []c06DSTIdx
+	for w := range c06DSTWindows {
+		for today := 0; today < 6; today++ {
+			for kw := 0; kw < 5; kw++ { // today yesterday last7 last30 + explicit date = today-1
+				for side := 0; side < 2; side++ {
+					for z := range c06DSTZones {
+						for cmd := 0; cmd < 2; cmd++ {
+							out = append(out, c06DSTIdx{w, today, kw, side, z, cmd})
+						}
+					}
+				}
+			}
+		}
+	}
+	return out
+}
+
+func c06DSTCase(ix c06DSTIdx) c06Case {
+	base := c06DSTWindows[ix.win]
+	today := base + ix.today
+	plain := vLayout{Indent: "  ", Sep: ": ", EOL: "\n"}
+	var s vScenario
+	s.Exact = true
+	s.Book = vDoc{Recs: []vRec{{Head: "meal", HL: vLayout{EOL: "\n"}, Lines: []vLine{{Kind: vkEntry, Name: "x", Num: "2", L: plain}}}}}
+	s.Recipes, s.Basics = []string{"meal"}, []string{"x"}
+	// one record for every day from today-31 to today+1
+	for d := today - 31; d <= today+1; d++ {
+		s.Days = append(s.Days, d)
+		s.Log.Recs = append(s.Log.Recs, vRec{Head: vFmtDay(d, ""), HL: vLayout{EOL: "\n"}, Lines: []vLine{{Kind: vkEntry, Name: "meal", Num: fmt.Sprint((d-today+40)%7 + 1), L: plain}}})
+	}
+	bound := c06Bound{Kind: []string{"today", "yesterday", "last7", "last30", "date"}[ix.kw], Day: today - 1}
+	c := c06Case{S: s, Today: today, TZ: c06DSTZones[ix.zone], Cmd: []int{2, 0}[ix.cmd]} // csv log, reg
+	if ix.side == 0 {
+		c.GB = bound
+	} else {
+		c.GE = bound
+	}
+	return c
+}
+
+func TestVerifC06DST(t *testing.T) {
+	space := c06DSTSpace()
+	vEnum(t, "C06", "c06.dst",
+		"keyword and explicit bounds around daylight-saving changes and year ends: 7 six-day windows (2021-03-14 US/Havana, 2021-03-28 EU, 2021-09-05 Santiago, 2021-11-07 US, 2020/2021 and 2024/2025 leap-year ends, 2021/2022) x --today on each day x bound in {today, yesterday, last7, last30, explicit date} x {begin, end} x 7 zones x {csv log, reg}, on a log with one record per day from today-31 to today+1",
+		fmt.Sprintf("%d combinations", len(space)), len(space), func(i int) c06Case { return c06DSTCase(space[i]) }, checkC06)
+}
+
 func init() {
+	vRegister("C06", "c06.dst", checkC06)
 	vRegister("C06", "c06.random", checkC06)
 	vRegister("C06", "c06.enum", checkC06)
 }
@@ -408,6 +467,6 @@ func TestVerifC06Enum(t *testing.T) {
 
 func TestVerifC06Random(t *testing.T) {
 	vRapid(t, "C06", "c06.random",
-		"random logs (1-7 days from a 6-day window placed at a month, year or leap-day boundary, any order, repeats, occasional day outside), --today in the window, begin/end from {absent, window +-1, today, yesterday, last7, last30}, 14 command variants + summary DATE, flag position global/sub-command/both, short/long option names, 3 date layouts, 6 zones (in-process via time.Local, 1/30 through the real binary with TZ)",
+		"random logs (1-7 days from a 6-day window placed at a month, year or leap-day boundary or around a daylight-saving change, any order, repeats, occasional day outside), --today in the window, begin/end from {absent, window +-1, today, yesterday, last7, last30}, 14 command variants + summary DATE, flag position global/sub-command/both, short/long option names, 3 date layouts, 12 zones incl. midnight DST changes and non-hour offsets (in-process via time.Local, 1/30 through the real binary with TZ)",
 		vBudget(4000, 64000), genC06, checkC06)
 }
